@@ -2,6 +2,7 @@
 
 Rules: RANK-COVARIANT, STN-TRANSPOSE, DIR-TABLE, BC-2D-SITE, ROW-1D-AGREE, FLUX-1D-AGREE,
 TELESCOPE-2D (shared with C01), SEAM-2D (C14), CONST-2D / KAPPA-2D (C03 / C11)."""
+import ast
 import re
 from fractions import Fraction
 
@@ -244,8 +245,34 @@ def bc_sites(check):
                      "namedBC(type, outward normal %s, interior %s state on %s line %s, bc dict); result stored as the %s state there" % (nrm, src[-1], fam, line, dst[-1]) if good else
                      "tag %s: normal-ok=%s (%s) type-ok=%s interior-side-ok=%s stores-exterior-ok=%s" % (tag, okn, (A.show(D.eng.it.lift(dirv.x)), A.show(D.eng.it.lift(dirv.y))) if isinstance(dirv, Vec) else dirv, okt, okd, oks),
                      f.loc(), key="site-" + tag)
-    ev = [e for e in D.eng.events if e[0] == "normal-dtype"]
+    # an integer-typed normal is harmful exactly where a boundary function derives a real-valued
+    # array from it with the normal's dtype (np.full_like(dir, ...), np.zeros_like(dir), dir.copy())
+    inherit = []
+    for ci in proj.all_classes():
+        reg = ci.registries.get("_bcdict")
+        if not reg or not ci.name.endswith("2d"):
+            continue
+        for key, bf in reg["entries"].items():
+            if len(bf.params) < 2:
+                continue
+            dn = bf.params[1]
+            for n in ast.walk(bf.node):
+                if isinstance(n, ast.Call) and isinstance(n.func, ast.Attribute):
+                    like = n.func.attr in ("full_like", "zeros_like", "empty_like", "ones_like") and n.args and isinstance(n.args[0], ast.Name) and n.args[0].id == dn and not any(k.arg == "dtype" for k in n.keywords)
+                    cp = n.func.attr == "copy" and isinstance(n.func.value, ast.Name) and n.func.value.id == dn
+                    if like or cp:
+                        inherit.append("%s:%d" % (bf.qualname, n.lineno))
+
+    def _integer(name):
+        if not inherit:
+            return False
+        n = str(name).split(".")[-1].lower()
+        return "int" in n or n in ("bool", "bool_", "byte", "short", "long")
+    ev = [e for e in D.eng.events if e[0] == "normal-dtype" and _integer(e[1])]
     g = proj.func("mesh2d.mesh2d.normal_of_bc")
+    cast = [e for e in D.eng.it.ev.astype if e[3] == "vector" and _integer(e[2]) and e[0].endswith("calc_bc")]
+    if cast:
+        check.violation("BC-2D-SITE", cast[0][0], "the boundary normal is converted to an integer type (%s, line %d) before it reaches the boundary functions: conditions that build their direction with np.full_like(dir, [[cos],[sin]]) (insup with an imposed angle) inherit it and truncate the direction cosines" % (cast[0][2], cast[0][1]) + " [%s]" % ", ".join(inherit[:3]), f.loc(), key="normal-dtype")
     if ev:
         check.violation("BC-2D-SITE", g.qualname, "boundary normals are allocated with an explicit dtype (%s): conditions that build their direction with np.full_like(dir, [[cos],[sin]]) (insup with an imposed angle) inherit it and truncate the direction cosines" % ev[0][1], g.loc(), key="normal-dtype")
     else:
